@@ -76,6 +76,13 @@ var c04Carriers = []carrier{
 	{"ctl-p-style", "C", func(s string) string { return "<p style=\"color:red\">" + s + "</p>" }},
 	{"obs-dn-space-colon", "O", spanStyle("display : none")},
 	{"obs-dn-css-comment", "O", spanStyle("display:/*x*/none")},
+	// aria-hidden text under the class for which the library shows aria-hidden *images* (Wikimedia math)
+	{"aria-fallback-class", "A", func(s string) string {
+		return "<span class=\"mwe-math-fallback-image-inline\" aria-hidden=\"true\">" + s + "</span>"
+	}},
+	{"aria-fallback-div", "A", func(s string) string {
+		return "<div class=\"fallback-image\" aria-hidden=\"true\"><p>" + s + "</p></div>"
+	}},
 }
 
 var c04Slots = []string{"top", "between", "inpara", "li", "tdl", "tdd", "cap", "capl", "fig", "tw", "head", "capo", "pic", "vid"}
